@@ -24,7 +24,7 @@ def run(pm, ctx):
     u = pm.unit(K)
     f = u.func("print_kauri_tree")
     ctx.rule("C19-a", "the printed rules must send a point to the child that predict sends it to", floor=5)
-    ctx.rule("C19-b", "names label the features actually used: the guard must bound the largest used index", floor=3)
+    ctx.rule("C19-b", "names label the features actually used: the guard must bound the largest used index", floor=4)
     ctx.rule("C19-c", "unfitted / foreign objects and too few names are refused before anything is printed", floor=3)
     pn = [n for n in ast.walk(f) if isinstance(n, ast.FunctionDef) and n.name == "print_node"]
     if not pn:
@@ -100,6 +100,19 @@ def run(pm, ctx):
         ctx.ok("C19-b", site, "feature_names[feature index]")
     else:
         ctx.violation("C19-b", u.relpath, "print_kauri_tree.print_node", norm_src(fn[0]) if fn else "feature_names[...]", "names are not looked up by the feature index", line=pn.lineno, site=site)
+    # without names, a feature is shown by its column index
+    dflt = [s_ for s_ in ast.walk(pn) if isinstance(s_, ast.Assign) and norm_src(s_.targets[0]) == "feature_name" and isinstance(s_.value, (ast.JoinedStr, ast.Call, ast.BinOp))
+            and "feature_names[" not in norm_src(s_.value)]
+    site = "print_node: default name shows the column index"
+    if not dflt:
+        ctx.unrecognised("C19-b", site, "no default feature name")
+    else:
+        used = {n.id for n in ast.walk(dflt[0].value) if isinstance(n, ast.Name)}
+        if "feature" in used and not (used - {"feature", "str"}):
+            ctx.ok("C19-b", site, norm_src(dflt[0].value)[:40])
+        else:
+            ctx.violation("C19-b", u.relpath, "print_kauri_tree.print_node", norm_src(dflt[0])[:120], f"the default name is built from {sorted(used)}, not from the feature index of the node",
+                          line=dflt[0].lineno, site=site)
     # the names subscripted in print_node must be the argument itself: the guard bounds THAT sequence by column index
     rebinds = [s for s in ast.walk(f) if isinstance(s, (ast.Assign, ast.AugAssign)) and any(
         isinstance(t, ast.Name) and t.id == "feature_names" for t in (s.targets if isinstance(s, ast.Assign) else [s.target]))]
@@ -172,4 +185,5 @@ def controls(pm, tier):
     mut("    check_is_fitted(kauri_tree)\n", "", "C19-c", "unfitted trees are printed")
     mut("            print(\"| \" * current_depth, f\"Cluster: {kauri_tree.tree_.target[node_id]}\")", "            print(\"| \" * current_depth, f\"Cluster: {kauri_tree.tree_.target[left_child]}\")", "C19-a", "leaf prints another node's target")
     mut("    def print_node(node_id):", "    if feature_names is not None:\n        feature_names = dict(zip(sorted(set(x for x in kauri_tree.tree_.features if x is not None)), feature_names))\n\n    def print_node(node_id):", "C19-b", "names re-keyed by used feature")
+    mut('            feature_name = f"X[:, {feature}]"', '            feature_name = f"X[:, {node_id}]"', "C19-b", "default name shows the node id")
     return out
